@@ -316,7 +316,7 @@ def gen_op(w: World, name, base, table, cur, validated):
     frozen = name in FROZEN
     cats = ["deriving", "generic"] if frozen else ["deriving", "inplace", "mutating", "generic"]
     weights = {"deriving": 4, "inplace": 2, "mutating": 4, "generic": 3}
-    if name in BALLOTS - FROZEN or name in LIST_PROFILES:
+    if name in BALLOTS or name in LIST_PROFILES:
         cats.append("convert")
         weights["convert"] = 1
     cat = rng.choices(cats, [weights[c] for c in cats])[0]
@@ -336,6 +336,13 @@ def gen_op(w: World, name, base, table, cur, validated):
     if cat == "convert":
         if name in LIST_PROFILES:
             return "as_multiprofile", cat, "-", lambda: cur.as_multiprofile()
+        import pabutools.election as _e
+
+        if name in FROZEN:
+            # a mutable ballot constructed from the frozen one ("thawing")
+            return "construct_mutable", cat, "-", lambda: getattr(_e, name[len("Frozen"):])(cur)
+        if rng.random() < 0.4:
+            return "construct_frozen", cat, "-", lambda: getattr(_e, "Frozen" + name)(cur)
         return "frozen", cat, "-", lambda: cur.frozen()
     names = table[cat]
     if not names:
@@ -527,12 +534,13 @@ def run_sequence(w: World, name, length, record):
                     cur = res
             elif cat == "convert":
                 n_der += 1
-                if op == "frozen":
+                if op in ("frozen", "construct_frozen", "construct_mutable"):
                     bad = shared_attrs_ok(before, res, ["name", "meta"])
                     if bad:
-                        v(op, "attrs", f"frozen ballot lost {bad[0]}", impl=brief(bad[2]), expected=brief(bad[1]))
-                    if not type(res).__name__ == "Frozen" + name:
-                        v(op, "type", f"frozen() returned {type(res).__name__}")
+                        v(op, "attrs", f"ballot constructed from another ballot lost {bad[0]}", impl=brief(bad[2]), expected=brief(bad[1]))
+                    want = name[len("Frozen"):] if op == "construct_mutable" else "Frozen" + name
+                    if not type(res).__name__ == want:
+                        v(op, "type", f"{op} returned {type(res).__name__}")
                 else:
                     keys = [k for k in before if k not in ("ballot_type",)]
                     bad = shared_attrs_ok(before, res, keys)
